@@ -7,6 +7,11 @@ CONSTANTS
   SiblingsAt <- MCSiblingsAt
   Stmts <- MCStmts
   SubSecond = FALSE
+  Modes = {"tree", "stmt"}
+  Texts = {}
+  Calls = {}
+  Lexers = {}
+  EarlyRelease = FALSE
   MCMaxDepth = 3
 SPECIFICATION Spec
 INVARIANTS RoundTrip StmtRoundTrip
